@@ -416,6 +416,15 @@ def b_zip(c):
     c.ret(Fresh(c.callee[8:]), pure=False)
 
 
+@builtin("object")
+def b_object(c):
+    """object(): a fresh object unlike every other value (sentinels): identified by where it is made"""
+    if c.args or c.kwargs:
+        c.rz("TypeError", "object() takes no arguments")
+        return
+    c.ret(("lit", "object", (), c.site[:3]), pure=False)
+
+
 @builtin("id", "hash")
 def b_id(c):
     if c.callee == "builtin:hash":
